@@ -176,8 +176,15 @@ impl Scenario for C03 {
         // budget: unlimited, or at / around the real cost (so that cost-exceeded outcomes are compared too)
         let refrun = prog::run_once(&target.prog, &target.env, target.flags, 0, &AllocCfg::unlimited(), &EntropyPlan::Zero, 50_000);
         let traj = trajectory(&refrun);
-        if rng.chance(1, 4) && !traj.is_empty() {
-            target.max_cost = (traj[rng.usize(traj.len())].cost + rng.below(3)).saturating_sub(1).max(1);
+        if rng.chance(1, 3) && !traj.is_empty() {
+            // at a step boundary (+-1), or somewhere inside the operator that runs at that step
+            let i = rng.usize(traj.len());
+            let c = traj[i].cost;
+            target.max_cost = match traj.get(i + 1) {
+                Some(n) if rng.bool() && n.cost > c + 1 => c + 1 + rng.below(n.cost - c - 1),
+                _ => (c + rng.below(3)).saturating_sub(1),
+            }
+            .max(1);
         }
         let mut history = Vec::new();
         let hlen = rng.usize(if thorough { 12 } else { 7 });
